@@ -29,6 +29,9 @@ desc = {
  'all240_seed1_final.log': 'all 240, seed 1, harness as of the start of round 7',
  'all240_seed2_final.log': 'all 240, seed 2, harness as of the start of round 7',
  'round7_first_run_seed0.log': 'round 7 (M, N) FIRST RUN against the harness that had never seen them: 26 of 40',
+ 'round8_first_run_seed0.log': 'round 8 (O, P) FIRST RUN against the harness that had never seen them: 23 of 40',
+ 'all320_seed0.log': 'all 320, seed 0, harness after the round-8 extensions (and the D17 / D18 repairs)',
+ 'all320_seed1.log': 'all 320, seed 1 (the seed `vp check` uses), same harness',
  'all280_seed0.log': 'all 280, seed 0, harness after the round-7 extensions',
  'all280_seed1.log': 'all 280, seed 1 (the seed `vp check` uses), same harness',
  'all240_seed1.log': 'all 240, seed 1 (the seed `vp check` uses), same harness',
